@@ -180,6 +180,22 @@ def r6_drain_prefix(text, log, file, base_line):
     return text
 
 
+def r9_str_contains(text, log, file, base_line):
+    """`A.as_str().contains(B)` -> `vx_str_contains(A.as_str(), B)`: trusted wrapper performing exactly
+    that call (`str::contains` is generic over the unstable `Pattern` trait, which an
+    assume_specification cannot name)."""
+    rx = re.compile(r'([A-Za-z_][A-Za-z0-9_]*(?:\.[A-Za-z_][A-Za-z0-9_]*)*)\.as_str\(\)\.contains\(')
+    while True:
+        m = rx.search(text)
+        if not m:
+            return text
+        msk = mask(text)
+        close = match_close(msk, m.end() - 1)
+        arg = text[m.end():close]
+        log.append(('R9', file, base_line + text.count('\n', 0, m.start()), m.group(0)))
+        text = text[:m.start()] + f'vx_str_contains({m.group(1)}.as_str(), {arg})' + text[close + 1:]
+
+
 def r8_ref_pattern(text, log, file, base_line):
     """`if let P(&x) = e {` -> `if let P(vx_r_x) = e { let x = *vx_r_x;` (Verus has no ref patterns).
 
@@ -391,6 +407,7 @@ class Weaver:
         text = r3_for_ref_tuple(text, u.rewrites, file, base_line)
         text = r6_drain_prefix(text, u.rewrites, file, base_line)
         text = r8_ref_pattern(text, u.rewrites, file, base_line)
+        text = r9_str_contains(text, u.rewrites, file, base_line)
         text = r5_self_path(text, u.rewrites, file, base_line, strip_modules)
         return text
 
